@@ -234,7 +234,7 @@ var StdPalette = []GoType{
 	{"*bytes.Buffer", "bytes"}, {"*strings.Builder", "strings"}, {"time.Duration", "time"},
 	{"*big.Int", "math/big"}, {"*url.URL", "net/url"}, {"*list.List", "container/list"},
 	{"fmt.Stringer", "fmt"}, {"io.Reader", "io"}, {"sort.IntSlice", "sort"}, {"*regexp.Regexp", "regexp"},
-	{"int", ""}, {"[]string", ""}, {"map[string]int", ""}, {"any", ""},
+	{"int", ""}, {"[]string", ""}, {"map[string]int", ""}, {"any", ""}, {"any", ""}, {"Token", ""}, {"[]Token", ""},
 }
 
 // TypedHarness renders a harness whose rules return the given Go types (one
@@ -298,4 +298,87 @@ func (g *Grammar) TypedHarness(types []GoType, bounds bool) string {
 	}
 	sb.WriteString("var Entry = &hc.Entry{}\n")
 	return sb.String()
+}
+
+// altSpelling gives another way of writing the same Go type ("" if none):
+// identical to the type checker, different as text.
+func altSpelling(expr string) string {
+	switch expr {
+	case "any":
+		return "interface{}"
+	case "Token":
+		return "hc.Token"
+	case "[]Token":
+		return "[]hc.Token"
+	}
+	return ""
+}
+
+// TypedHarnessFiles is TypedHarness spread over two Go files: the methods of
+// every rule alternate between harness.go and harness_b.go, and the second
+// file writes types that have another spelling (any / interface{}, Token /
+// hc.Token) the other way. What the generator prints must not depend on which
+// file it happens to look at first.
+func (g *Grammar) TypedHarnessFiles(types []GoType, bounds bool) map[string]string {
+	one := g.TypedHarness(types, bounds)
+	i := strings.Index(one, "func (p *P) on_")
+	j := strings.Index(one, "var Entry = ")
+	if i < 0 || j < i {
+		return map[string]string{"harness.go": one}
+	}
+	head, body, tail := one[:i], one[i:j], one[j:]
+	var a, b strings.Builder
+	a.WriteString(head)
+	// second file: same imports (those it does not use are blanked)
+	b.WriteString(head[:strings.Index(head, ")\n")+2])
+	b.WriteString("\nvar _ = hc.Token{}\n")
+	imp := head[strings.Index(head, "import ("):strings.Index(head, ")\n")]
+	k := 0
+	for _, m := range strings.SplitAfter(body, "\n}\n\n") {
+		if !strings.HasPrefix(m, "func (p *P) on_") {
+			a.WriteString(m)
+			continue
+		}
+		if k%2 == 1 {
+			// result type is the text between the parameter list and " {"
+			nl := strings.Index(m, " {\n")
+			rp := strings.LastIndex(m[:nl], ") ")
+			ret := m[rp+2 : nl]
+			if alt := altSpelling(ret); alt != "" {
+				m = m[:rp+2] + alt + m[nl:]
+				m = strings.Replace(m, "var z "+ret+"\n", "var z "+alt+"\n", 1)
+			}
+			b.WriteString(m)
+		} else {
+			a.WriteString(m)
+		}
+		k++
+	}
+	a.WriteString(tail)
+	bs := b.String()
+	// blank out the imports harness_b.go does not use
+	for _, line := range strings.Split(imp, "\n") {
+		line = strings.TrimSpace(line)
+		if !strings.HasPrefix(line, "\"") || line == "\"batch/hc\"" {
+			continue
+		}
+		path := strings.Trim(line, "\"")
+		name := path[strings.LastIndex(path, "/")+1:]
+		if !strings.Contains(bs[strings.Index(bs, ")\n"):], name+".") {
+			bs = strings.Replace(bs, "\t"+line+"\n", "\t_ "+line+"\n", 1)
+		}
+	}
+	as := a.String()
+	for _, line := range strings.Split(imp, "\n") {
+		line = strings.TrimSpace(line)
+		if !strings.HasPrefix(line, "\"") || line == "\"batch/hc\"" {
+			continue
+		}
+		path := strings.Trim(line, "\"")
+		name := path[strings.LastIndex(path, "/")+1:]
+		if !strings.Contains(as[strings.Index(as, ")\n"):], name+".") {
+			as = strings.Replace(as, "\t"+line+"\n", "\t_ "+line+"\n", 1)
+		}
+	}
+	return map[string]string{"harness.go": as, "harness_b.go": bs}
 }
